@@ -107,7 +107,7 @@ def source_harnesses(crate):
     names = []
     for fn in sorted(glob.glob(os.path.join(VERIF, crate, "src", "*.rs"))):
         src = open(fn).read()
-        names += re.findall(r"^\s*harness\d?!\(\s*(\w+)\s*,", src, re.M)
+        names += re.findall(r"^\s*harness\w*!\(\s*(\w+)\s*,", src, re.M)
         names += re.findall(r"#\[kani::proof\]\s*(?:#\[[^\]]*\]\s*)*fn (\w+)\(", src)
     return sorted(set(names))
 
